@@ -1460,6 +1460,10 @@ func genC23(r *simrt.Rand, tier string) any {
 		sc.UpdAt = 1
 		sc.UpdCfg = &SrvCfg{TransferSize: []int{0, -1, 1, 1001, 4096, 1 << 21}[r.Int(6)], ViaTuning: r.Pct(50)}
 	}
+	if r.Pct(25) {
+		// a backend that takes fewer bytes than it was given and reports so without an error
+		sc.Faults = append(sc.Faults, simfs.Fault{Op: "File.WriteAt", Nth: 1 + r.Int(2), Kind: "shortok", Short: []int{1, 2, 3, 100, 1000}[r.Int(5)], Repeat: r.Pct(50)})
+	}
 	return sc
 }
 
@@ -1479,7 +1483,7 @@ func init() {
 		genC25, "C25.")
 	seqProp("C26", "one case = a directory of 0-40 entries (files, directories, symlinks) with name lengths 1..255 listed by 2-8 READDIR/READDIRPLUS cookie-following sequences with count/maxcount from 1 upward (dense near the size of one entry), dircount <= maxcount, directory cache on/off with the clock advancing between pages, entries created between listings; oracle: concatenation over pages == model children exactly once, fileids equal to those of other replies, encoded READDIR3resok/READDIRPLUS3resok size <= the client's limit, NFS3ERR_TOOSMALL iff not even the next entry fits, a page that can hold an entry holds at least one; non-trivial = at least one listing; distinct by event digest",
 		genC26, "C26.")
-	seqProp("C23", "one case = FSINFO followed by READ and WRITE with counts drawn from {1, preferred, max-1, max} of the advertised limits, for a per-run configured TransferSize (1..65536 and default; in 40% of the runs 1, 2, 3, 5, 1001, 1023, 4097, 65535 or values around and above the 1 MiB record limit) optionally changed at runtime between FSINFO and the I/O, or before the FSINFO (0, -1, 1, 1001, 4096, 2 MiB through UpdateExportOptions or UpdateTuningOptions), on a full record-marked connection (the 1 MiB record limit is in play); oracle: READ before EOF returns >= 1 correct byte, WRITE is accepted (never NFS3ERR_INVAL, never a dropped connection) and reports its count, rtpref<=rtmax, wtpref<=wtmax; non-trivial = at least one FSINFO-driven I/O; distinct by event digest",
+	seqProp("C23", "one case = FSINFO followed by READ and WRITE with counts drawn from {1, preferred, max-1, max} of the advertised limits, for a per-run configured TransferSize (1..65536 and default; in 40% of the runs 1, 2, 3, 5, 1001, 1023, 4097, 65535 or values around and above the 1 MiB record limit) optionally changed at runtime between FSINFO and the I/O, or before the FSINFO (0, -1, 1, 1001, 4096, 2 MiB through UpdateExportOptions or UpdateTuningOptions), on a full record-marked connection (the 1 MiB record limit is in play); oracle: READ before EOF returns >= 1 correct byte, WRITE is accepted (never NFS3ERR_INVAL, never a dropped connection) and reports its count, which is exactly what the backend then holds (in a quarter of the cases the backend takes fewer bytes than given, without an error), rtpref<=rtmax, wtpref<=wtmax; non-trivial = at least one FSINFO-driven I/O; distinct by event digest",
 		genC23, "C23.")
 	seqProp("C05", "one case = a history of 10-50 handle-issuing calls (MNT, LOOKUP, CREATE, MKDIR, SYMLINK, READDIRPLUS) over 2-50 paths with the handle table limit drawn from {1,2,3,5,10,16,32}, each returned handle used at once in GETATTR, plus re-use of older handle values; oracle: the immediately following GETATTR succeeds and every backend call it makes is for the path the handle was issued for; accessor check after every operation: live handle count <= limit and every live path has exactly one handle value; 25% of the cases instead drive the real FileHandleMap directly: 2-4 tasks issuing 2-7 Allocate/Get/Release/ReleaseAll calls over 1-4 paths with limit 1..100 under the seeded scheduler (also with -race), one atomic snapshot of both maps after every call (ids and paths in bijection, count <= limit, an issued value denotes its path), or (a third of the direct cases) one task running a long history of 3-8 x limit Allocate/Release/Get/ReleaseAll calls over 2 x limit + 5..25 paths with limit 1..50, so that the table overflows many times while freed ids are being reused (every returned handle must be live and denote its path at once); non-trivial = at least 2 eviction rounds (request histories) or >= 4 calls from >= 2 tasks (direct); distinct by event digest",
 		genC05("C05"), "C05.")
